@@ -8,6 +8,7 @@ from .. import heval, termrules as T, witness
 from ..report import AnalysisError, Ctx
 from ..values import NodeV, ObjV, Sym
 from . import oracles as O
+from .common import check_arguments_influence
 
 EXPLANATION = (
     "Decides the structural clauses of the property on the SQLAlchemy visitors (ORM and Core, handlers resolved through "
@@ -130,6 +131,8 @@ def run(ctx: Ctx, env):
             for p in interp.explore(setup):
                 if p.outcome != "return":
                     continue
+                check_arguments_influence(ctx, "R3.result-depends-on-operands", hn, p, env.schema, hci.module.loc(fn),
+                                          f"{f}(content, '') on a row whose content is NULL")
                 t = T.norm(p.value)
                 checks = {getattr(ev.data["args"][0], "path", "?") for ev in p.events if ev.kind == "call_repo_func" and ev.data["func"].endswith("typecheck")}
                 ctx.check({"args[0]", "args[1]"} <= checks, "R3.substring-typechecks", hn, f"{f}: both operands must be type-checked before the operator is built",
@@ -155,6 +158,7 @@ def run(ctx: Ctx, env):
                     if p.outcome != "return":
                         continue
                     n_fn += 1
+                    check_arguments_influence(ctx, "R4.result-depends-on-operands", f"{hn}/{n}", p, env.schema, p.entry.get("where", ""))
                     t = T.norm(p.value)
                     problem = _check_function(f, n, t)
                     if problem == "UNKNOWN":
